@@ -322,4 +322,63 @@ CASES = [
     dict(id="twin-formatter-precompiled-patterns", prop="*", kind="twin", file="generator/formatter.py",
          edits=[('def fix_whitespace(code: str) -> str:', '_TRAILING = re.compile(r"[ ]+\\n")\n\n\ndef fix_whitespace(code: str) -> str:'),
                 ('    code = re.sub(r"[ ]+\\n", "\\n", code)', '    code = _TRAILING.sub("\\n", code)')]),
+    # ---------------- round 4 additions (rules added after seeds C..d and the agents' side findings O-28 / O-29)
+    dict(id="c04-o28-reverted", prop="C04", kind="mutant", file="schema/wrappers.py",
+         old="""        return {
+            name
+            for name, field in self.input.fields.items()
+            if field.field_pb.name not in params
+        }""", new="        return set(self.input.fields) - params"),
+    dict(id="c04-twin-query-params-loop", prop="C04", kind="twin", file="schema/wrappers.py",
+         old="""        return {
+            name
+            for name, field in self.input.fields.items()
+            if field.field_pb.name not in params
+        }""", new="""        unbound = set()
+        for py_name, fld in self.input.fields.items():
+            if fld.field_pb.name in params:
+                continue
+            unbound.add(py_name)
+        return unbound"""),
+    dict(id="c05-o29-reverted-get-field", prop="C05", kind="mutant", file="schema/wrappers.py",
+         old="""                if first_field in utils.RESERVED_NAMES
+                and self.meta.address.is_proto_plus_type
+                else \"\"""", new="""                if first_field in utils.RESERVED_NAMES
+                else \"\""""),
+    dict(id="c12-o29-reverted-key", prop="C12", kind="mutant", file="schema/wrappers.py",
+         old="""                    if field.field_pb.name in utils.RESERVED_NAMES
+                    and field.meta.address.is_proto_plus_type
+                    else \"\"""", new="""                    if field.field_pb.name in utils.RESERVED_NAMES
+                    else \"\""""),
+    dict(id="c16-twin-early-return-superset", prop="C16", kind="twin", file="schema/wrappers.py",
+         old="""        return dataclasses.replace(
+            self,
+            methods={
+                k: v.with_internal_methods(public_methods=public_methods)""",
+         new="""        if public_methods.issuperset(m.ident.proto for m in self.methods.values()):
+            return self
+        return dataclasses.replace(
+            self,
+            methods={
+                k: v.with_internal_methods(public_methods=public_methods)"""),
+    dict(id="c16-early-return-any", prop="C16", kind="mutant", file="schema/wrappers.py",
+         old="""        return dataclasses.replace(
+            self,
+            methods={
+                k: v.with_internal_methods(public_methods=public_methods)""",
+         new="""        if any(m.ident.proto in public_methods for m in self.methods.values()):
+            return self
+        return dataclasses.replace(
+            self,
+            methods={
+                k: v.with_internal_methods(public_methods=public_methods)"""),
+    dict(id="c19-aggregate-first-only", prop="C19", kind="mutant", file="schema/api.py",
+         old="            *(proto.resource_messages for proto in pre_protos.values())\n        )\n\n        # Second pass",
+         new="            *(proto.resource_messages for proto in pre_protos.values() if proto.services)\n        )\n\n        # Second pass"),
+    dict(id="c03-stub-cache-conditional", prop="C03", kind="mutant", file=S + "transports/grpc.py.j2",
+         old="        self._stubs: Dict[str, Callable] = {}\n", new="        if channel is None:\n            self._stubs: Dict[str, Callable] = {}\n"),
+    dict(id="c03-twin-stub-cache-dict-call", prop="C03", kind="twin", file=S + "transports/grpc.py.j2",
+         old="        self._stubs: Dict[str, Callable] = {}\n", new="        self._stubs: Dict[str, Callable] = dict()\n"),
+    dict(id="c18-twin-populate-comment", prop="C18", kind="twin", file=S + "_client_macros.j2",
+         old="{{ shared_macros.auto_populate_uuid4_fields(api, method) }}", new="{# request ids #}\n{{ shared_macros.auto_populate_uuid4_fields(api, method) }}"),
 ]
